@@ -683,7 +683,21 @@ struct runner
         break;
       case 21:
       case 22:
-        if (!related)
+        if (related && !same && prefix(pa, pb))
+        {
+          // hoisting: the source is a strict descendant of the target. The target takes over the source's value and
+          // children; everything else that was below the target (the source node itself and its siblings) is destroyed.
+          T &tb = at(*real[rb], pb);
+          M sub = at(model[rb], pb); // by value: the model's source is destroyed by the assignment below
+          vf::extend_case(" move_assign_hoist(%s<-%s)", pstr(ra, pa).c_str(), pstr(rb, pb).c_str());
+          ta = std::move(tb);
+          M &target = at(model[ra], pa);
+          target.id = sub.id;
+          std::vector<M> kids = std::move(sub.ch);
+          target.ch = std::move(kids);
+          opname = sub.ch.empty() && target.ch.empty() ? "move-assign-hoist-leaf" : "move-assign-hoist-subtree";
+        }
+        else if (!related)
         {
           T &tb = at(*real[rb], pb);
           M &mb = at(model[rb], pb);
@@ -771,7 +785,7 @@ void body()
         "tree/op/swap-inner-root", "tree/op/copy-assign-inner-related", "tree/op/copy-assign-inner-unrelated",
         "tree/op/copy-assign-root-unrelated", "tree/op/copy-assign-root-related", "tree/op/copy-assign-inner-unrelated-grows",
         "tree/op/move-assign-inner-inner", "tree/op/move-assign-root-inner", "tree/op/move-assign-inner-root",
-        "tree/op/move-assign-root-root", "tree/op/copy-then-mutate", "tree/op/compare-reshaped", "tree/comparison/same-values-different-shape", "tree/links-verified"})
+        "tree/op/move-assign-root-root", "tree/op/move-assign-hoist-subtree", "tree/op/move-assign-hoist-leaf", "tree/op/copy-then-mutate", "tree/op/compare-reshaped", "tree/comparison/same-values-different-shape", "tree/links-verified"})
     vf::require_bucket(b);
   std::string e = "tree-history";
   if (!vf::entry_enabled(e))
